@@ -197,6 +197,23 @@ def run(prog, chk):
                         chk.ob("R2.fields-are-public-material", "%s._fields:%s" % (c.name, t), bool(why), fm.loc,
                                "%s - %s" % (t, why[0] if why else "not on the allow-list of public material (private numbers / signing key would make equality depend on the private half)"))
     chk.floor("R2", "_fields implementations", nfields, 4)
+    # equality must look at *all* the public material the encoding carries: the public-number components mentioned by
+    # _fields are the ones asbytes() writes (a tuple (name, x, x) makes a key equal to its negated-point twin)
+    comp = {"RSAKey": ("e", "n"), "ECDSAKey": ("x", "y")}
+    for K, names in sorted(comp.items()):
+        fm = prog.cls(K).methods["_fields"]
+        ab_ = prog.method(K, "asbytes")
+
+        def comps(fn):
+            out = []
+            for x in walk_no_defs(fn.node):
+                if isinstance(x, ast.Attribute) and x.attr in names and isinstance(x.ctx, ast.Load) and \
+                        ("public_numbers" in unparse(x.value) or unparse(x.value) == "numbers"):
+                    out.append(x.attr)
+            return out
+        fcs, acs = comps(fm), comps(ab_)
+        chk.ob("R2.fields-cover-the-encoded-public-numbers", K, sorted(fcs) == sorted(set(acs)) and len(set(fcs)) == len(names), fm.loc,
+               "_fields compares %s; asbytes() encodes %s (each component exactly once in _fields)" % (fcs, sorted(set(acs))))
 
     # ---- R3 ---------------------------------------------------------------------------------------------------
     def reader_ops(cls):
